@@ -12,7 +12,7 @@ from itertools import combinations_with_replacement, permutations, product
 
 from . import graphs as G
 
-COLOURS = (G.C, G.H, G.D, G.C13, G.CRAD, G.O, G.N, G.CL, G.C13RAD, G.NO256, G.LR, G.MD256, G.NO)
+COLOURS = (G.C, G.H, G.D, G.C13, G.CRAD, G.O, G.N, G.CL, G.C13RAD, G.NO256, G.LR, G.MD256, G.NO, G.CRAD1, G.CRAD3)
 CI = {c: i for i, c in enumerate(COLOURS)}
 
 
@@ -71,6 +71,9 @@ QUICK_SPACES = [
     # isotope masses >= 256 next to the following element (invariants packed into bytes, string vs number order)
     (3, alphabet(G.O, G.NO256, G.LR, G.MD256, G.NO), None),
     (4, alphabet(G.O, G.NO256, G.LR), None),
+    # every radical value the formats know (1 = singlet, 2 = doublet, 3 = triplet) against the unflagged atom
+    (3, alphabet(G.C, G.CRAD1, G.CRAD, G.CRAD3), None),
+    (4, alphabet(G.C, G.CRAD1, G.CRAD), None),
 ]
 THOROUGH_SPACES = QUICK_SPACES + [
     (4, A7, None),
@@ -563,6 +566,24 @@ def _c12_derived_inputs(n, st, vios, res):
             break
         return h
     variants["attribute-edited-after-construction"] = edited_attribute
+
+    def bare_bonds():
+        # bonds without any attribute, as graph_from_tucan builds them: nothing may be added to them
+        h = nx.Graph()
+        h.add_nodes_from(g.nodes(data=True))
+        h.add_edges_from(g.edges())
+        return h
+    variants["bonds-without-attributes"] = bare_bonds
+
+    def extra_bond_attribute():
+        # bonds carrying data the library does not know: it has to be carried along
+        h = g.copy()
+        for i, (a, b) in enumerate(h.edges()):
+            h.edges[a, b]["note"] = f"bond{i}"
+            if i % 2:
+                h.edges[a, b].pop("bond_type", None)
+        return h
+    variants["extra-bond-attribute"] = extra_bond_attribute
     for name, mk in variants.items():
         try:
             h = mk()
